@@ -117,4 +117,49 @@ def single : Tmpl → Bool
   | .call _ _ _ .nil => true
   | _ => false
 
+/-! ## nested iterators (an iterator inside the role template of another iterator) -/
+
+/-- All task / call roles of a processed tree in document order (through aggregators and
+    iterator nodes): what `LeafWalk` visits. -/
+def Tree.leaves : Tree → List Info
+  | .nil => []
+  | .agg _ k n => leaves k ++ leaves n
+  | .task i _ _ n => i :: leaves n
+  | .call i _ _ n => i :: leaves n
+  | .iter k n => leaves k ++ leaves n
+
+/-- One level of a nest of iterators: `for var in rng` over an aggregator with header `hdr`
+    (the YAML grammar puts a role between two iterators; an aggregator is the one that can
+    hold the next iterator). -/
+structure Level where
+  rng : RangeT
+  var : String
+  hdr : Hdr
+  deriving Repr, DecidableEq, Inhabited
+
+/-- `nest [l₁, …, lₙ] inner`: iterator l₁ over aggregator l₁.hdr whose child is iterator l₂ over
+    … over aggregator lₙ.hdr whose children are `inner` — nesting depth n, any n. -/
+def nest : List Level → Tmpl → Tmpl
+  | [], inner => inner
+  | l :: ls, inner => .iter l.rng l.var (.agg l.hdr (nest ls inner) .nil) .nil
+
+/-- What the property demands of a nest: the variable stacks under which the innermost
+    roles are instantiated, in lexicographic range order. Level k's range is evaluated ONCE
+    PER ROLE GENERATED AT LEVEL k-1, in THAT role's own flattened stack `c'` (which holds the
+    enclosing iteration variables and whatever the role derived from them) — never in a
+    sibling's. A range that does not evaluate, or a generated role that is disabled or
+    fails, contributes no instance (the failure itself is reported through `Out.err`). -/
+def nestCtxs (ctx : Ctx) : List Level → List Ctx
+  | [] => [ctx]
+  | l :: ls =>
+    match evalRange ctx.lookRange l.rng with
+    | none => []
+    | some ws => ws.flatMap fun w =>
+      match procHdr ctx [(l.var, w)] l.hdr [] with
+      | .ok _ c' _ => nestCtxs c' ls
+      | _ => []
+
+/-- every level's aggregator carries a plain truthy `enabled` (else finding iterator_enabled_expr strikes) -/
+def nestEnabled (ls : List Level) : Bool := ls.all fun l => truthy (rawText l.hdr.enabled)
+
 end Load
